@@ -32,11 +32,11 @@ func init() {
 }
 
 type histReplay struct {
-	Prop    string   `json:"prop"`
-	Key     string   `json:"key"`
-	Cfg     histCfg  `json:"cfg"`
-	Choices []int    `json:"choices"`
-	Ops     []string `json:"ops"`
+	Prop    string     `json:"prop"`
+	Key     string     `json:"key"`
+	Cfg     histCfg    `json:"cfg"`
+	Choices []int      `json:"choices"`
+	Ops     []string   `json:"ops"`
 	Answers [][]string `json:"answers"`
 }
 
@@ -214,7 +214,7 @@ func histJudge(prop string, cfg histCfg, o *histObs) []finding {
 			add(mode+"/gave-up-without-final-answer/"+lastClass(r.Classes), "%s: answers %v never gave a final answer, yet the call returned (code %#02x err %q) after %d transmissions", op.Name, r.Answers, r.Code, r.Err, nTx)
 			continue
 		case term != len(r.Classes)-1:
-			add(mode+"/transmitted-after-final/"+classNames(r.Classes[term:term+1])[0], "%s: answers %v: %d further transmissions after the terminal answer %q", op.Name, r.Answers, len(r.Classes)-1-term, r.Answers[term])
+			add(mode+"/transmitted-after-final/"+classNames(r.Classes[term : term+1])[0], "%s: answers %v: %d further transmissions after the terminal answer %q", op.Name, r.Answers, len(r.Classes)-1-term, r.Answers[term])
 		}
 		if nTx != len(r.Classes) {
 			add(mode+"/transmission-count", "%s: %d datagrams transmitted for %d answers", op.Name, nTx, len(r.Classes))
